@@ -149,9 +149,12 @@ def hsOksOf (toks : List String) : List Bool :=
     | ["sn", k, _] => some (toks.contains s!"hs:{k}:1")
     | _ => none
 
-def runE2eOp (w : WorldT) (op : SOp) (seg : List String) : Option (List String × WorldT) := do
+def runE2eOp (w : WorldT) (op : SOp) (seg : List String) (gone : Bool := false) : Option (List String × WorldT) := do
   let o := oraclesOf seg
-  let groups : List Group := (List.range (max op.groups.length o.played.length)).map fun i =>
+  let groups : List Group :=
+    -- the server has dropped this control connection: whatever is sent, nothing comes back (end-of-file)
+    if gone && op.name != "connect" then List.replicate 8 { raws := [] } else
+    (List.range (max op.groups.length o.played.length)).map fun i =>
     let act := (op.groups[i]?).bind (·.act)
     match o.played[i]? with
     | some raws => { raws := raws, act := act }
@@ -383,6 +386,12 @@ def monitorE2e (cfg : E2eCfg) (st : E2eState) (op : SOp) (seg : List String) : O
        else if (stTok.getD 2 "0") != "0" then some "socket-held-after-disconnect" else none)
     else if returned && retItems.any (·.startsWith "421:") && conn then some "connected-after-421"
     else none
+  else if cfg.prop = "C17" then
+    -- after any call, returned or thrown: exactly one socket if the client reports connected, none otherwise
+    let stTok := ((seg.find? fun t => t.startsWith "st:").getD "").splitOn ":"
+    match stTok with
+    | [_, c, n] => if n != c then some "descriptor-count-differs-from-connected-state" else none
+    | _ => none
   else if cfg.prop = "C18" && cfg.tls then
     if op.name = "connect" then none
     else
@@ -431,7 +440,7 @@ def e2eOp (args : List String) (impl : String) : Option Verdict := do
       let seg' := seg.filter fun t => !isSummary t || t.startsWith "played:"
       let nPlayed := (seg.filter fun t => t.startsWith "o0:q:").length + (if op.name = "connect" then 1 else 0)
       let goneNow := st.serverGone || ((op.groups.take nPlayed).any (·.closes))
-      match runE2eOp { st.w with peerAnswersCloseNotify := !goneNow } { op with groups := op.groups } (seg.map id) with
+      match runE2eOp { st.w with peerAnswersCloseNotify := !goneNow } { op with groups := op.groups } (seg.map id) st.serverGone with
       | none => failure
       | some (model, w') =>
         -- truncated TLS stream: the model's data script ends in an error
